@@ -16,7 +16,7 @@ EXPLANATION = (
     "clock rate and multiplied by it again (inexact round trip; the one-shot path truncates the unscaled value). R5: a mode whose "
     "skills read a FORWARD neighbour of the current difficulty object (index = idx + k) builds the one-shot difficulty objects from the whole "
     "object list, as the gradual constructor does, and not from a list cut at passed_objects (the last note of a prefix would lose its successor "
-    "in one path only). R6 (catch): the ObjectCountBuilder handed into the shared conversion — Regular{take} by the one-shot path, Gradual by the gradual one — is write-only there: its variant and fields are read only inside its own impl and its &self/&mut self methods return nothing, so the conversion (whose output is sorted by time only afterwards) cannot depend on the counting mode. R7 (catch): a counter kept under the same name by ObjectCount and GradualObjectCount is at least as wide in the gradual count and updated by the same expression in both arms. Equality of the values per prefix (nth arithmetic, "
+    "in one path only). R6 (catch): the ObjectCountBuilder handed into the shared conversion — Regular{take} by the one-shot path, Gradual by the gradual one — is write-only there: its variant and fields are read only inside its own impl and its &self/&mut self methods return nothing, so the conversion (whose output is sorted by time only afterwards) cannot depend on the counting mode. R7 (catch): a counter kept under the same name by ObjectCount and GradualObjectCount is at least as wide in the gradual count and updated by the same expression in both arms. R8: the one-shot calculation and the gradual next() feed each skill type under the same private conditions (container forwarders inlined, closures included). R9: every numeric argument that the one-shot entry (calculate inlined) and the gradual constructor hand to the same callee of the mode's difficulty module is the same expression skeleton over (difficulty, MAP) — helpers and set-up structs read through, every way of naming the converted map collapsed. Equality of the values per prefix (nth arithmetic, "
     "count deltas) is numeric and NOT decided.")
 
 
